@@ -1,3 +1,8 @@
 package main
 
-func c06Schema(c *Ctx) {}
+import "golang.org/x/tools/go/ssa"
+
+// c06Schema: K1/K4 — the schema rows of every codec, re-evaluated under C06 (losslessness).
+func c06Schema(c *Ctx) {
+	e2CheckLayouts(c, "C06-K1", func(name string, f *ssa.Function) bool { return true }, 120)
+}
